@@ -513,8 +513,10 @@ struct Core<'a> {
     excuse_all: bool,
     /// ... or this particular request
     excused: Vec<bool>,
-    /// a complete message reached the client after this request's start
-    traffic: Vec<bool>,
+    /// when the last complete message reached the client since this request's start
+    last_traffic: Vec<Option<Instant>>,
+    /// 0 = within budget, 1 = known-class lateness reported, 2 = lateness reported
+    budget_stage: Vec<u8>,
 }
 
 fn err_class(e: &Error) -> String {
@@ -551,7 +553,8 @@ impl<'a> Core<'a> {
             err_unexamined: Vec::new(),
             excuse_all: false,
             excused: vec![false; plan.len()],
-            traffic: vec![false; plan.len()],
+            last_traffic: vec![None; plan.len()],
+            budget_stage: vec![0; plan.len()],
         }
     }
     fn choose(&self, n: usize, label: &'static str) -> usize {
@@ -744,23 +747,48 @@ impl<'a> Core<'a> {
         let now = Instant::now();
         for i in 0..self.reqs.len() {
             let r = &self.reqs[i];
-            if let (Some(s), None, false) = (r.start, &r.result, r.cancelled) {
-                if now.duration_since(s) >= b && r.slot.is_some() {
-                    let el = now.duration_since(s);
-                    self.reqs[i].start = None; // report once
-                    let (sig, why) = if self.tname == "stream" {
-                        if self.cfg["response_timeout_ms"].as_u64() != Some(ST_RT_MS) && !self.traffic[i] {
-                            ("C15|stream|budget|request-pending-after-response-timeout|no-traffic|configured-timeout-differs-from-default".to_string(), " (nothing arrived on the connection; Config::set_response_timeout was called with a non-default value)")
-                        } else if self.traffic[i] {
-                            ("C15|stream|budget|request-pending-after-response-timeout|timer-restarted-by-another-message".to_string(), " (another message arrived on the connection after the request started)")
-                        } else {
-                            ("C15|stream|budget|request-pending-after-response-timeout|no-traffic".to_string(), " (nothing arrived on the connection)")
-                        }
-                    } else {
-                        (format!("C15|{}|budget|request-pending-after-timeout-and-retry-budget", self.tname), "")
-                    };
-                    self.violate(sig, format!("request {i} still pending {el:?} after its start; budget {b:?}{why}"));
+            let (Some(s), None, false) = (r.start, &r.result, r.cancelled) else { continue };
+            if now.duration_since(s) < b || r.slot.is_none() {
+                continue;
+            }
+            let el = now.duration_since(s);
+            if self.tname != "stream" {
+                if self.budget_stage[i] == 0 {
+                    self.budget_stage[i] = 2;
+                    self.violate(
+                        format!("C15|{}|budget|request-pending-after-timeout-and-retry-budget", self.tname),
+                        format!("request {i} still pending {el:?} after its start; budget {b:?}"),
+                    );
                 }
+                continue;
+            }
+            // stream: messages that arrived LATER than the request's start
+            // restart the connection-wide timer (known finding); apart from
+            // that the request must be gone once the connection has been
+            // silent for the response timeout.
+            let later = self.last_traffic[i].filter(|t| *t > s);
+            let (stage, sig, why): (u8, String, String) = match (self.last_traffic[i], later) {
+                (None, _) => {
+                    if self.cfg["response_timeout_ms"].as_u64() != Some(ST_RT_MS) {
+                        (2, "C15|stream|budget|request-pending-after-response-timeout|no-traffic|configured-timeout-differs-from-default".into(), " (nothing arrived on the connection; Config::set_response_timeout was called with a non-default value)".into())
+                    } else {
+                        (2, "C15|stream|budget|request-pending-after-response-timeout|no-traffic".into(), " (nothing arrived on the connection)".into())
+                    }
+                }
+                (Some(t), Some(_)) if now.duration_since(t) < b => (
+                    1,
+                    "C15|stream|budget|request-pending-after-response-timeout|timer-restarted-by-another-message".into(),
+                    " (another message arrived on the connection after the request started)".into(),
+                ),
+                (Some(t), _) => (
+                    2,
+                    "C15|stream|budget|request-pending-after-response-timeout|connection-silent-for-response-timeout".into(),
+                    format!(" (and the last message on the connection arrived {:?} ago)", now.duration_since(t)),
+                ),
+            };
+            if stage > self.budget_stage[i] {
+                self.budget_stage[i] = stage;
+                self.violate(sig, format!("request {i} still pending {el:?} after its start; budget {b:?}{why}"));
             }
         }
     }
@@ -903,13 +931,15 @@ struct StreamCfg {
     /// answered completely and the second wave (0 = no gap, second wave starts
     /// when at most one request is open)
     gap_ms: u64,
+    /// by default this caller is never answered
+    never_answer: Option<usize>,
     /// size of the first wave of submissions; the rest is submitted (by
     /// default) once at most one request is still open at the peer
     wave1: usize,
 }
 impl StreamCfg {
     fn json(&self) -> Value {
-        json!({"plan": self.plan, "idle_timeout_ms": self.idle_ms, "response_timeout_ms": self.rt_ms, "peer_silent_by_default": self.silent, "first_wave": self.wave1, "gap_before_second_wave_ms": self.gap_ms})
+        json!({"plan": self.plan, "idle_timeout_ms": self.idle_ms, "response_timeout_ms": self.rt_ms, "peer_silent_by_default": self.silent, "first_wave": self.wave1, "gap_before_second_wave_ms": self.gap_ms, "never_answered_by_default": self.never_answer})
     }
 }
 
@@ -956,7 +986,7 @@ fn account_frame(core: &mut Core, entries: &mut [Entry], conn: usize, healthy: b
     }
     for i in 0..core.reqs.len() {
         if core.pending(i) {
-            core.traffic[i] = true;
+            core.last_traffic[i] = Some(Instant::now());
         }
     }
     let id = u16::from_be_bytes([msg[0], msg[1]]);
@@ -1060,8 +1090,10 @@ async fn run_stream(g: &Global, cfg: &StreamCfg, ch: Arc<Mutex<Chooser>>) {
             Some(_) => !(at_wave_boundary && (open.len() > keep_open || gap_now)),
             None => false,
         };
-        let silent_now = cfg.silent && next_unsub.is_none() && healthy && !open.is_empty();
-        let deliver_default = !submit_now && !gap_now && !silent_now && healthy && !open.is_empty();
+        let answerable: Vec<usize> = open.iter().copied().filter(|e| Some(entries[*e].req) != cfg.never_answer).collect();
+        let silent_now = (cfg.silent || answerable.is_empty()) && next_unsub.is_none() && healthy && !open.is_empty();
+        let deliver_default = !submit_now && !gap_now && !silent_now && healthy && !answerable.is_empty();
+        let default_target = answerable.first().copied();
         let default_tick: Option<u64> = if gap_now {
             Some(cfg.gap_ms)
         } else if silent_now {
@@ -1082,7 +1114,7 @@ async fn run_stream(g: &Global, cfg: &StreamCfg, ch: Arc<Mutex<Chooser>>) {
         } else if let Some(d) = default_tick {
             menu.push(SAct::Tick(d));
         } else if deliver_default {
-            menu.push(SAct::Deliver(open[0], RKind::Answer));
+            menu.push(SAct::Deliver(default_target.unwrap(), RKind::Answer));
         } else {
             menu.push(SAct::Finish);
         }
@@ -1091,7 +1123,7 @@ async fn run_stream(g: &Global, cfg: &StreamCfg, ch: Arc<Mutex<Chooser>>) {
         }
         if healthy {
             for &e in &open {
-                if !(deliver_default && e == open[0]) {
+                if !(deliver_default && Some(e) == default_target) {
                     menu.push(SAct::Deliver(e, RKind::Answer));
                 }
             }
@@ -1476,10 +1508,12 @@ struct DgramCfg {
     retries: u8,
     silent: bool,
     max_par: usize,
+    /// the default "time passes" step is half the read timeout
+    half_ticks: bool,
 }
 impl DgramCfg {
     fn json(&self) -> Value {
-        json!({"plan": self.plan, "max_retries": self.retries, "peer_silent_by_default": self.silent, "max_parallel": self.max_par})
+        json!({"plan": self.plan, "max_retries": self.retries, "peer_silent_by_default": self.silent, "max_parallel": self.max_par, "default_time_step_is_half_read_timeout": self.half_ticks})
     }
 }
 
@@ -1493,7 +1527,8 @@ enum DAct {
     Late(usize),
     Cross(usize, usize), // to waiting[a]'s socket, the reply for waiting[b]
     RecvErr(usize),
-    Tick,
+    /// time passes: the read timeout (false) or half of it (true)
+    Tick(bool),
     Cancel(usize),
     Finish,
 }
@@ -1578,12 +1613,16 @@ async fn run_dgram(g: &Global, cfg: &DgramCfg, ch: Arc<Mutex<Chooser>>) {
         if next_unsub.is_some() {
             menu.push(DAct::Submit);
         } else if !waiting.is_empty() {
-            menu.push(if cfg.silent { DAct::Tick } else { DAct::Reply(0, RKind::Answer) });
+            menu.push(if cfg.silent { DAct::Tick(cfg.half_ticks) } else { DAct::Reply(0, RKind::Answer) });
         } else if any_pending {
-            menu.push(DAct::Tick);
+            menu.push(DAct::Tick(false));
         } else {
             menu.push(DAct::Finish);
         }
+        let default_tick = match menu[0] {
+            DAct::Tick(h) => Some(h),
+            _ => None,
+        };
         for (wi, w) in waiting.iter().enumerate() {
             if !(next_unsub.is_none() && !cfg.silent && wi == 0) {
                 menu.push(DAct::Reply(wi, RKind::Answer));
@@ -1605,8 +1644,12 @@ async fn run_dgram(g: &Global, cfg: &DgramCfg, ch: Arc<Mutex<Chooser>>) {
             }
             menu.push(DAct::RecvErr(wi));
         }
-        if !waiting.is_empty() && !(next_unsub.is_none() && cfg.silent) {
-            menu.push(DAct::Tick);
+        if !waiting.is_empty() {
+            for h in [false, true] {
+                if default_tick != Some(h) {
+                    menu.push(DAct::Tick(h));
+                }
+            }
         }
         for i in 0..core.reqs.len() {
             if core.pending(i) {
@@ -1686,9 +1729,21 @@ async fn run_dgram(g: &Global, cfg: &DgramCfg, ch: Arc<Mutex<Chooser>>) {
                 core.excused[w.req] = true;
                 dg_feed(&sh, w.sock, Err(()));
             }
-            DAct::Tick => {
-                core.count("action.tick");
-                core.note(format!("virtual time advances by {DG_READ_TIMEOUT:?}"));
+            DAct::Tick(half) => {
+                // Never step across a receive deadline: a coarse step would
+                // start the next transmission late and so stretch the
+                // request artificially. "Full" = up to the next deadline.
+                let now = Instant::now();
+                let next_deadline = {
+                    let g = sh.lock().unwrap();
+                    waiting.iter().filter_map(|w| g.socks[w.sock].sent_at).map(|t| (t + DG_READ_TIMEOUT).duration_since(now)).filter(|d| !d.is_zero()).min()
+                };
+                let mut d = if half { DG_READ_TIMEOUT / 2 } else { DG_READ_TIMEOUT };
+                if let Some(nd) = next_deadline {
+                    d = d.min(nd);
+                }
+                core.count(if half { "action.tick-half" } else { "action.tick" });
+                core.note(format!("virtual time advances by {d:?}"));
                 core.excuse_all = true;
                 if waiting.is_empty() {
                     idle_ticks += 1;
@@ -1696,7 +1751,7 @@ async fn run_dgram(g: &Global, cfg: &DgramCfg, ch: Arc<Mutex<Chooser>>) {
                         break; // finish() reports the stuck request
                     }
                 }
-                tokio::time::advance(DG_READ_TIMEOUT).await;
+                tokio::time::advance(d).await;
             }
             DAct::Cancel(i) => core.cancel(i),
             DAct::Finish => break,
@@ -1813,7 +1868,9 @@ async fn run_multi(g: &Global, cfg: &MultiCfg, ch: Arc<Mutex<Chooser>>) {
         let (c, t) = dgram_stream::Connection::<DgConnect, Rq>::with_config(dgc, tcp, dgram_stream::Config::from_parts(dc, msc));
         conn = Box::new(c);
         transport = t;
-        core.budget = Some(MS_UDP_TIMEOUT * (1 + cfg.udp_retries as u32) + MS_RESPONSE_TIMEOUT);
+        // time moves in 64 s steps, so each 60 s datagram attempt is noticed
+        // up to 4 s late: allow for that
+        core.budget = Some((MS_UDP_TIMEOUT + (MS_TICK - MS_UDP_TIMEOUT)) * (1 + cfg.udp_retries as u32) + MS_RESPONSE_TIMEOUT);
     } else {
         let (c, t) = multi_stream::Connection::<Rq>::with_config(tcp, msc);
         conn = Box::new(c);
@@ -2127,7 +2184,7 @@ fn all_cases() -> Vec<Case> {
     for c in stream_cfgs() {
         cases.push(Case::Stream(c));
     }
-    for c in dgram_cfgs() {
+    for c in dgram_cfgs().into_iter().chain(dgram_half_cfgs()) {
         cases.push(Case::Dgram(c));
     }
     for c in multi_cfgs() {
@@ -2159,7 +2216,7 @@ fn run_case(g: &Global, case: &Case, ch: &mut Chooser) {
 
 fn stream_cfgs() -> Vec<StreamCfg> {
     let mut v = Vec::new();
-    let base = |plan: Vec<usize>, idle_ms: u64| StreamCfg { wave1: plan.len(), plan, idle_ms, rt_ms: ST_RT_MS, silent: false, gap_ms: 0 };
+    let base = |plan: Vec<usize>, idle_ms: u64| StreamCfg { wave1: plan.len(), plan, idle_ms, rt_ms: ST_RT_MS, silent: false, gap_ms: 0, never_answer: None };
     for plan in [vec![0], vec![0, 0], vec![0, 1], vec![0, 0, 1]] {
         for idle_ms in [ST_IDLE_MS, 0] {
             v.push(base(plan.clone(), idle_ms));
@@ -2175,6 +2232,10 @@ fn stream_cfgs() -> Vec<StreamCfg> {
     for plan in [vec![0], vec![0, 0]] {
         v.push(StreamCfg { silent: true, rt_ms: 1000, ..base(plan, ST_IDLE_MS) });
     }
+    // idle timeout far larger than the response timeout, one of three callers
+    // never answered: it must still go at the response timeout
+    v.push(StreamCfg { rt_ms: 2000, never_answer: Some(1), ..base(vec![0, 0, 1], 60_000) });
+    v.push(StreamCfg { rt_ms: 2000, never_answer: Some(0), ..base(vec![0, 1], 60_000) });
     // second request after the connection has been idle for just below / exactly / just above the idle timeout
     for gap_ms in [ST_IDLE_MS - 1, ST_IDLE_MS, ST_IDLE_MS + 1] {
         v.push(StreamCfg { wave1: 1, gap_ms, ..base(vec![0, 0], ST_IDLE_MS) });
@@ -2195,9 +2256,21 @@ fn dgram_cfgs() -> Vec<DgramCfg> {
                     _ => &[2], // three callers, two permits
                 };
                 for &max_par in pars {
-                    v.push(DgramCfg { plan: plan.clone(), retries, silent, max_par });
+                    v.push(DgramCfg { plan: plan.clone(), retries, silent, max_par, half_ticks: false });
                 }
             }
+        }
+    }
+    v
+}
+
+/// Silent peer, time passing in half read-timeout steps: stray datagrams can
+/// be interleaved without any silent gap reaching the read timeout.
+fn dgram_half_cfgs() -> Vec<DgramCfg> {
+    let mut v = Vec::new();
+    for plan in [vec![0], vec![0, 0]] {
+        for retries in [0u8, 2] {
+            v.push(DgramCfg { plan: plan.clone(), retries, silent: true, max_par: 100, half_ticks: true });
         }
     }
     v
